@@ -566,3 +566,107 @@ Section AgreeX.
       + rewrite (tfields_len _ _ _ _ _ E). cbn [acc0 a_slots]. apply map_length.
   Qed.
 End AgreeX.
+
+(* ------------------------------------------------------------------ LogicDoc.shared is the XBase fragment of xshared
+   (either flag): the theorems over xdoc subsume those of Props/C10_link.v on the documents of LogicDoc *)
+Section EmbedShared.
+  Variable tp : bool.
+  Variable decode : bytes -> cow.
+  Variable pf : bytes -> outcome N.
+  Variable cfg : bcfg.
+
+  Lemma of_lval_arr vs : of_lval (LArr vs) = XArr (map of_lval vs).
+  Proof. reflexivity. Qed.
+  Lemma of_lval_obj fs : of_lval (LObj fs) = XObj (map of_lfield fs).
+  Proof. reflexivity. Qed.
+
+  Lemma shared_embed_v v : forall sh, shared_v decode pf cfg sh v -> xshared_v tp decode pf cfg sh (of_lval v).
+  Proof.
+    induction v as [l|c|vs IH|fs IH] using lval_ind'; intros sh H.
+    - cbn [of_lval shared_v xshared_v] in *. destruct (strip_opt sh); exact H.
+    - cbn [of_lval shared_v xshared_v] in *. destruct (strip_opt sh); try contradiction. exact I.
+    - rewrite of_lval_arr. cbn [shared_v xshared_v] in *.
+      destruct (strip_opt sh) as [| | | | | | | |s|s|ss|s|tk fds|s|names| |]; try exact H; try contradiction.
+      + induction IH as [|x r Hx Hr IHr]; [exact I|]. destruct H as [H1 H2]. cbn [map]. split; [apply Hx, H1|apply IHr, H2].
+      + revert ss H. induction IH as [|x r Hx Hr IHr]; intros ss H; [exact I|].
+        destruct ss as [|s ss']; [contradiction|]. destruct H as [H1 H2]. cbn [map]. split; [apply Hx, H1|apply IHr, H2].
+    - rewrite of_lval_obj. cbn [shared_v xshared_v] in *.
+      destruct (strip_opt sh) as [| | | | | | | |s|s|ss|s|tk fds|s|names| |]; try exact H; try (destruct H as [_ []]).
+      + destruct H as [Hne H]. split; [destruct fs; [exfalso; apply Hne; reflexivity|discriminate]|].
+        clear Hne. induction IH as [|x r Hx Hr IHr]; [exact I|]. destruct H as [H1 H2]. cbn [map]. split; [apply Hx, H1|apply IHr, H2].
+      + destruct H as [Hne H]. split; [destruct fs; [exfalso; apply Hne; reflexivity|discriminate]|].
+        destruct tk; [contradiction|].
+        clear Hne. induction IH as [|x r Hx Hr IHr]; [exact I|]. destruct H as [H1 H2]. cbn [map]. split; [|apply IHr, H2].
+        change (xf_val (of_lfield x)) with (of_lval (lf_val x)). change (xf_kind (of_lfield x)) with (lf_kind x).
+        change (xf_key (of_lfield x)) with (lf_key x).
+        destruct (find_name fds (tdec decode (text_raw (lf_kind x) (lf_key x))) 0) as [[j fd]|]; [apply Hx, H1|exact I].
+  Qed.
+
+  Theorem shared_embed sh d : shared decode pf cfg sh d -> xshared tp decode pf cfg sh (of_ldoc d).
+  Proof.
+    unfold of_ldoc. destruct sh; cbn [shared xshared]; try contradiction.
+    - induction d as [|x r IH]; [intros; exact I|]. intros [H1 H2]. cbn [map xshared_map]. split; [apply shared_embed_v, H1|apply IH, H2].
+    - destruct token; [contradiction|].
+      induction d as [|x r IH]; [intros; exact I|]. intros [H1 H2]. cbn [map xshared_struct]. split; [|apply IH, H2].
+      change (xf_val (of_lfield x)) with (of_lval (lf_val x)). change (xf_kind (of_lfield x)) with (lf_kind x).
+      change (xf_key (of_lfield x)) with (lf_key x).
+      destruct (find_name fields (tdec decode (text_raw (lf_kind x) (lf_key x))) 0) as [[j fd]|]; [apply shared_embed_v, H1|exact I].
+  Qed.
+End EmbedShared.
+
+Section EmbedEnc.
+  Variable decode : bytes -> cow.
+  Variable cfg : bcfg.
+
+  Lemma enc_embed_v v : forall e, enc_ok_v decode cfg e v -> enc_okx_v decode cfg e (of_lval v).
+  Proof.
+    induction v as [l|c|vs IH|fs IH] using lval_ind'; intros e H.
+    - exact H.
+    - exact H.
+    - rewrite of_lval_arr. apply enc_okx_arr. apply (enc_ok_arr decode cfg) in H. revert H. generalize 0%nat.
+      induction IH as [|x r Hx Hr IHr]; intros i H; [exact I|]. destruct H as [H1 H2]. cbn [map enc_okx_vals]. split; [apply Hx, H1|apply IHr, H2].
+    - rewrite of_lval_obj. apply enc_okx_obj. apply (enc_ok_obj decode cfg) in H. destruct H as [Hg H]. split; [exact Hg|].
+      revert H. generalize 0%nat.
+      induction IH as [|x r Hx Hr IHr]; intros i H; [exact I|]. destruct H as [[Hk H1] H2]. cbn [map enc_okx_fields].
+      split; [split; [exact Hk|apply Hx, H1]|apply IHr, H2].
+  Qed.
+
+  Theorem enc_embed e d : enc_ok decode cfg e d -> enc_okx decode cfg e (of_ldoc d).
+  Proof.
+    intros (Hg & Hem & H). split; [exact Hg|]. split; [intros Hd; apply Hem; destruct d; [reflexivity|discriminate]|].
+    unfold of_ldoc. clear Hem. revert H. generalize 0%nat.
+    induction d as [|x r IH]; intros i H; [exact I|]. destruct H as [[Hk H1] H2]. cbn [map enc_okx_fields].
+    split; [split; [exact Hk|apply enc_embed_v, H1]|apply IH, H2].
+  Qed.
+End EmbedEnc.
+
+Lemma wf_embed_v v : xwf (of_lval v) = lwf v.
+Proof.
+  induction v as [l|c|vs IH|fs IH] using lval_ind'; try reflexivity.
+  - rewrite of_lval_arr. cbn [xwf lwf]. induction IH as [|x r Hx Hr IHr]; [reflexivity|]. cbn [map]. rewrite Hx, IHr. reflexivity.
+  - rewrite of_lval_obj. cbn [xwf lwf]. f_equal; [destruct fs; reflexivity|].
+    induction IH as [|x r Hx Hr IHr]; [reflexivity|]. cbn [map]. change (xf_val (of_lfield x)) with (of_lval (lf_val x)). rewrite Hx, IHr. reflexivity.
+Qed.
+Lemma wf_embed d : wf_xdoc (of_ldoc d) = wf_ldoc d.
+Proof.
+  unfold wf_xdoc, wf_ldoc, of_ldoc. induction d as [|x r IH]; [reflexivity|]. cbn [map xwf_fields lwf_fields].
+  change (xf_val (of_lfield x)) with (of_lval (lf_val x)). rewrite wf_embed_v, IH. reflexivity.
+Qed.
+
+Lemma norgb_not_xrgb v : norgb v = true -> is_xrgb (of_lval v) = false.
+Proof. destruct v; try discriminate; reflexivity. Qed.
+Lemma rgbpos_embed_v v : norgb v = true -> rgbpos_v (of_lval v) = true.
+Proof.
+  induction v as [l|c|vs IH|fs IH] using lval_ind'; intros H; try reflexivity.
+  - rewrite of_lval_arr. rewrite norgb_arr in H. cbn [rgbpos_v].
+    induction IH as [|x r Hx Hr IHr]; [reflexivity|]. cbn [forallb] in H. apply andb_prop in H as [H1 H2].
+    cbn [map]. rewrite (norgb_not_xrgb x H1), (Hx H1), (IHr H2). reflexivity.
+  - rewrite of_lval_obj. rewrite norgb_obj in H. cbn [rgbpos_v].
+    induction IH as [|x r Hx Hr IHr]; [reflexivity|]. cbn [forallb] in H. apply andb_prop in H as [H1 H2].
+    cbn [map]. change (xf_val (of_lfield x)) with (of_lval (lf_val x)). rewrite (Hx H1), (IHr H2). reflexivity.
+Qed.
+Lemma rgbpos_embed d : norgb_fields d = true -> rgbpos (of_ldoc d) = true.
+Proof.
+  unfold of_ldoc. induction d as [|x r IH]; intros H; [reflexivity|]. cbn [norgb_fields] in H. apply andb_prop in H as [H1 H2].
+  cbn [map rgbpos]. change (xf_val (of_lfield x)) with (of_lval (lf_val x)). rewrite (rgbpos_embed_v _ H1), (IH H2). reflexivity.
+Qed.
